@@ -432,6 +432,94 @@ pub(crate) fn build_app_with_workspace_root_and_provider_and_task_policy(
         .with_state(state)
 }
 
+/// Verification export: the production router over a caller-supplied engine, so a harness can
+/// drive the HTTP surface and observe the same engine directly.
+#[cfg(rip_verif)]
+pub struct VerifApp {
+    state: AppState,
+    router: Router,
+}
+
+#[cfg(rip_verif)]
+impl VerifApp {
+    pub fn new(engine: Arc<SessionEngine>, allow_pty_tasks: bool) -> Self {
+        let (router, openapi_json) = build_openapi_router();
+        let state = AppState {
+            sessions: Arc::new(Mutex::new(HashMap::new())),
+            tasks: Arc::new(Mutex::new(HashMap::new())),
+            engine,
+            openapi_json: Arc::new(openapi_json),
+            allow_pty_tasks,
+        };
+        let router = router
+            .route("/openapi.json", get(openapi_spec))
+            .with_state(state.clone());
+        Self { state, router }
+    }
+
+    pub fn router(&self) -> Router {
+        self.router.clone()
+    }
+
+    pub fn engine(&self) -> Arc<SessionEngine> {
+        self.state.engine.clone()
+    }
+
+    pub async fn session_handle(&self, session_id: &str) -> Option<SessionHandle> {
+        self.state.sessions.lock().await.get(session_id).cloned()
+    }
+
+    /// Registers a task exactly like `POST /tasks` and returns its id together with the
+    /// (unspawned) future that `spawn_task` would have spawned.
+    pub async fn create_task_future(
+        &self,
+        payload: serde_json::Value,
+    ) -> Result<
+        (
+            String,
+            std::pin::Pin<Box<dyn std::future::Future<Output = ()> + Send + 'static>>,
+        ),
+        String,
+    > {
+        let payload: TaskSpawnPayload =
+            serde_json::from_value(payload).map_err(|err| err.to_string())?;
+        let engine = self.state.engine.tasks();
+        let handle = engine.create_task(&payload);
+        let task_id = handle.task_id.clone();
+        self.state
+            .tasks
+            .lock()
+            .await
+            .insert(task_id.clone(), handle.clone());
+        Ok((task_id, Box::pin(engine.verif_task_future(handle, payload))))
+    }
+
+    /// Registers a task and returns a future that emits `kinds` through the real task emitter.
+    pub async fn create_task_emit_future(
+        &self,
+        payload: serde_json::Value,
+        kinds: Vec<rip_kernel::EventKind>,
+    ) -> Result<
+        (
+            String,
+            std::pin::Pin<Box<dyn std::future::Future<Output = ()> + Send + 'static>>,
+        ),
+        String,
+    > {
+        let payload: TaskSpawnPayload =
+            serde_json::from_value(payload).map_err(|err| err.to_string())?;
+        let engine = self.state.engine.tasks();
+        let handle = engine.create_task(&payload);
+        let task_id = handle.task_id.clone();
+        self.state
+            .tasks
+            .lock()
+            .await
+            .insert(task_id.clone(), handle.clone());
+        Ok((task_id, Box::pin(engine.verif_emit_future(&handle, kinds))))
+    }
+}
+
 pub(crate) fn build_openapi_router() -> (Router<AppState>, String) {
     let (router, api) = OpenApiRouter::with_openapi(ApiDoc::openapi())
         .routes(routes!(config_doctor))
@@ -543,7 +631,11 @@ async fn stream_events(
         }
     };
 
+    #[cfg(rip_verif)]
+    rip_kernel::verif::point("sse.session.subscribe");
     let receiver = handle.subscribe();
+    #[cfg(rip_verif)]
+    rip_kernel::verif::point("sse.session.snapshot");
     let past = handle.events_snapshot().await;
 
     let last_seq = past.last().map(|event| event.seq);
@@ -1261,8 +1353,12 @@ async fn thread_stream_events(
     State(state): State<AppState>,
 ) -> impl IntoResponse {
     let store = state.engine.continuities();
+    #[cfg(rip_verif)]
+    rip_kernel::verif::point("sse.thread.subscribe");
     let receiver = store.subscribe();
 
+    #[cfg(rip_verif)]
+    rip_kernel::verif::point("sse.thread.snapshot");
     let past = match store.replay_events(&thread_id) {
         Ok(events) => events,
         Err(err) if err.kind() == std::io::ErrorKind::NotFound => {
@@ -1450,7 +1546,11 @@ async fn stream_task_events(
         }
     };
 
+    #[cfg(rip_verif)]
+    rip_kernel::verif::point("sse.task.subscribe");
     let receiver = handle.subscribe();
+    #[cfg(rip_verif)]
+    rip_kernel::verif::point("sse.task.snapshot");
     let past = handle.events_snapshot().await;
 
     let last_seq = past.last().map(|event| event.seq);
